@@ -142,6 +142,7 @@ def validate_family(module, cfg, dirpath, prefix, tag, max_rejects=5, timeout=18
         with open(path) as f:
             lines = f.readlines()
         entries = sorted(idx[s])
+        distinct = set(hash(x) for x in lines if not x.startswith('{"ev":"Reset"') and '"ev":"Dict"' not in x[:40])
         rejected = []
         states = generated = 0
         cur_lines, cur_entries = lines, entries
@@ -173,15 +174,18 @@ def validate_family(module, cfg, dirpath, prefix, tag, max_rejects=5, timeout=18
             if len(rejected) >= max_rejects:
                 break
         return dict(events=len(lines), scenarios=len(entries), states=states, generated=generated,
-                    rejected=rejected)
+                    rejected=rejected, distinct=distinct)
 
     with ThreadPoolExecutor(max_workers=NCPU) as ex:
         res = list(ex.map(one, shards))
     tot = dict(events=0, scenarios=0, states=0, generated=0, rejected=[])
+    alld = set()
     for r in res:
+        alld |= r["distinct"]
         for k in ("events", "scenarios", "states", "generated"):
             tot[k] += r[k]
         tot["rejected"].extend(r["rejected"])
+    tot["distinct"] = len(alld)
     return tot
 
 
